@@ -212,6 +212,12 @@ func (p *Prog) LoadContracts() error {
 		for _, fc := range cs {
 			if strings.Contains(fc.File, "/specs/stdlib/") {
 				fc.Trusted = true
+				// a library spec file named after a property (c17_math_big.spec) serves that property only
+				if len(fc.Props) == 0 {
+					if fp := fileProp(fc.File); fp != "" {
+						fc.Props = []string{fp}
+					}
+				}
 			}
 		}
 	}
